@@ -525,7 +525,16 @@ class CallGen:
             stmts.append(("decl", f["ret"], out, ("call", f["name"], [call(g, 0)])))
             outs = [(out, f["ret"])]
         text = "{ " + cref.show_stmts(stmts) + " }"
-        return {"text": text, "stmts": stmts, "outs": outs, "convention": convention, "uses": uses, "form": form}
+        res = {"text": text, "stmts": stmts, "outs": outs, "convention": convention, "uses": uses, "form": form}
+        if self.cfg == "B" and form in ("void_call", "branch_call", "two_byref_calls") and ch.chance(1, 3, "byref-operand"):
+            # (configuration B only: known finding F12 - the callee binds a register-operand parameter by its *name*)
+            # the by-reference operand is an explicitly numbered register or an alias (declared as a HexOp struct, passed as
+            # &name) instead of an operand letter (declared as a pointer)
+            import re as _re
+            optext, key = ch.choice([("R3", "R3_op"), ("HEX_REG_ALIAS_LR", "lr_op"), ("R7", "R7_op")], "byref-op")
+            res["text"] = _re.sub(r"\bRdV\b", optext, text)
+            res["byref_key"] = key
+        return res
 
 
 def all_funcs(gen_funcs: dict) -> dict:
